@@ -278,6 +278,26 @@ def r3(ctx):
         ctx.check("DeviceInfoCache.iam_device_info:%s" % fld, ok, where(dc.module, f), "device info %s must be copied from the I-Am's %s" % (fld, src))
     upd = [x for x in calls_in(f) if self_call(x) == "update_device_info"]
     ctx.check("DeviceInfoCache.iam_device_info:stored", len(upd) == 1 and not [x for x in facts_at(upd[0]) if x.origin == "arm"], where(dc.module, f), "the learned record must be put into the cache")
+    # ... on every path that accepts the I-Am: no way out of the method (other than refusing a non-I-Am) skips the copy
+    # of the limits or the hand-over to the cache - a later I-Am with smaller limits must replace what an earlier one said
+    from ..paths import enumerate_paths
+    skipped = []
+    for p_ in enumerate_paths(f):
+        if p_.term == "raise":
+            continue
+        done = set()
+        for e in p_.events:
+            if e.kind != "stmt":
+                continue
+            nd = e.node
+            if isinstance(nd, ast.Assign) and isinstance(nd.targets[0], ast.Attribute) and nd.targets[0].attr in ("maxApduLengthAccepted", "segmentationSupported", "address"):
+                done.add(nd.targets[0].attr)
+            if any(self_call(x) == "update_device_info" for x in calls_in(nd)):
+                done.add("update_device_info")
+        if done != {"maxApduLengthAccepted", "segmentationSupported", "address", "update_device_info"}:
+            skipped.append(p_.describe()[:160])
+    ctx.check("DeviceInfoCache.iam_device_info:every-announcement-counts", not skipped, where(dc.module, f),
+              "an accepted I-Am leaves the method without refreshing the peer's limits / the cache on the path %s" % (skipped[:1],))
     # a record the cache has never seen (no _cache_keys yet) must become retrievable under both keys
     f = dc.methods.get("update_device_info")
     if f is None:
@@ -403,3 +423,36 @@ def r4(ctx):
     st = [s for t, s in attr_stores(sm.methods["__init__"], "proposedWindowSize")]
     v = prog.try_const(sm.module, st[0].value) if len(st) == 1 else None
     ctx.check("SMAP.__init__:proposedWindowSize", isinstance(v, int) and 1 <= v <= 127, where(sm.module, sm.methods["__init__"]), "default proposed window must be within 1..127 (found %r)" % (v,))
+
+
+@rule("C12.R5", "the window in use is honoured when sending: one burst is exactly actualWindowSize consecutive segments", floor=2, engines="E5 (shared with C05.R5)")
+def r5(ctx):
+    from .c05 import fill_window_loop, burst_bound
+    c, f, lp, seq = fill_window_loop(ctx)
+    burst_bound(ctx, c, f, lp, seq)
+    # before the first segment-ack the peer has granted nothing: the client starts a segmented request with no window
+    # (None: only segment 0 may be repeated, never a burst) or with a window of exactly 1
+    prog = ctx.prog
+    cl = prog.cls(MOD, "ClientSSM")
+    ind = cl.methods["indication"]
+    ev = Evaluator(prog, cl.module, cl)
+    sts = [st for tgt, st in attr_stores(ind, "actualWindowSize") if isinstance(st, ast.Assign)]
+    vals = [prog.try_const(cl.module, st.value) if not (isinstance(st.value, ast.Constant) and st.value.value is None) else None for st in sts]
+    ok = len(sts) >= 1 and all((isinstance(st.value, ast.Constant) and st.value.value is None) or v == 1 for st, v in zip(sts, vals))
+    ctx.check("ClientSSM.indication:no-window-before-first-ack", ok, where(cl.module, sts[0] if sts else ind),
+              "a segmented request starts with no agreed window (None) or a window of 1, never with the client's own proposal")
+    to = cl.methods["segmented_request_timeout"]
+    from ..paths import enumerate_paths
+    from .common import path_value
+    bursts = []
+    if any(v is None for v in vals) or not sts:
+        for p_ in enumerate_paths(to):
+            if p_.term == "raise":
+                continue
+            kind, _ = path_value(p_, ev, {"self.initialSequenceNumber": 0}, "<feasibility>")
+            if kind == "infeasible":
+                continue
+            if any(self_call(x) == "fill_window" for x in p_.calls()):
+                bursts.append(p_.describe()[:140])
+    ctx.check("ClientSSM.segmented_request_timeout:single-segment-before-first-ack", not bursts, where(cl.module, to),
+              "while nothing has been acknowledged (initial sequence number 0, no window agreed) a timeout may repeat segment 0 only: %s" % bursts[:1])
